@@ -91,6 +91,7 @@ type caseSink struct {
 	nontriv   map[string]bool
 	start     time.Time
 	extra     map[string]any
+	header    string // extra vernacular after the imports (e.g. From RUN Require Gen_x.)
 }
 
 func newSink(dir, prop, imports, caseType, judge string, shardSize int) *caseSink {
@@ -123,6 +124,7 @@ func (s *caseSink) flush() {
 	}
 	var b strings.Builder
 	fmt.Fprintf(&b, "From FPV Require Import Base.Prelude %s.\n", s.imports)
+	b.WriteString(s.header)
 	b.WriteString("Local Open Scope Z_scope.\n")
 	fmt.Fprintf(&b, "Definition cases : list (%s) := [\n", s.caseType)
 	b.WriteString(strings.Join(s.cur, ";\n"))
